@@ -30,8 +30,8 @@ META = dict(
               'samples[rank::size], the gather order and the restoration of sample order in compute_derived_trace'],
     assumptions=['strictly positive weights in OnlineVariance.update (Optimizer.sample_parameters adds 1e-300 to '
                  'every weight, so this holds for every posterior)',
-                 'the total weight of the processed samples is well above the underflow threshold (when every '
-                 'weight is 1e-300, counts*size underflows to 0 and combine_variance raises with one rank too)',
+                 'samples that all carry the weight 1e-300 (a drawn subset of zero-weight samples) are part of the run, '
+                 'against the Python oracles only',
                  'tolerance: variances compared at 1e-9 relative to the squared scale of the values '
                  '(exact rational model vs double precision streaming arithmetic)'],
 )
@@ -122,7 +122,7 @@ class SimComm:
 
 # ---------------------------------------------------------------------------------- part A: OnlineVariance
 def gen_weights(rng, n):
-    kind = rng.choice(['unit', 'random', 'ties', 'dominant', 'tiny', 'tiny300'])
+    kind = rng.choice(['unit', 'random', 'ties', 'dominant', 'tiny', 'tiny300', 'all300'])
     if kind == 'unit':
         w = [1.0] * n
     elif kind == 'random':
@@ -133,6 +133,9 @@ def gen_weights(rng, n):
         w = [rng.uniform(1e-8, 1e-6) for _ in range(n)]
         if n:
             w[rng.randrange(n)] = 1.0
+    elif kind == 'all300':
+        # every sample carries the negligible weight Optimizer.sample_parameters gives a zero-weight sample
+        w = [1e-300] * n
     else:
         t = 1e-300 if kind == 'tiny300' else 2.0 ** -120
         w = [rng.choice([t, rng.uniform(0.1, 1.0), rng.uniform(0.1, 1.0)]) for _ in range(n)]
@@ -255,7 +258,7 @@ def part_a(ctx):
             ctx.violation('variance-split', 'parallelVariance depends on the split: ' + bad, replay=rp)
         # model: first component
         first = lambda v: float(np.atleast_1d(v)[0])
-        if wkind == 'tiny300':     # 1000-bit rationals are too slow in Coq: implementation oracles only
+        if wkind in ('tiny300', 'all300'):     # 1000-bit rationals are too slow in Coq: implementation oracles only
             ctx.count('oracle-only')
             continue
         if robin:
